@@ -441,6 +441,89 @@ func (c *Client) CommitMarkedOffsets(ctx context.Context) error {
 	return nil
 }
 
+// CommitUncommittedOffsets commits, like the real client, the position behind the last record handed out by
+// PollRecords for every assigned partition ("dirty" offsets) - whatever has or has not been marked.
+func (c *Client) CommitUncommittedOffsets(ctx context.Context) error {
+	simrt.IOPoint()
+	for _, tp := range c.b.tps() {
+		if !c.assigned[tp] {
+			continue
+		}
+		p := c.b.parts[tp]
+		i := c.pos[tp]
+		if p == nil || i == 0 || i > len(p.log) {
+			continue
+		}
+		last := p.log[i-1]
+		eo := EpochOffset{Epoch: last.LeaderEpoch, Offset: last.Offset + 1}
+		p.committed, p.hasCommit = eo, true
+		if c.b.OnMark != nil {
+			c.b.OnMark(tp, eo, eo)
+		}
+	}
+	return nil
+}
+
+// MarkCommitRecords marks the records' offsets + 1 (as the real client does).
+func (c *Client) MarkCommitRecords(rs ...*Record) {
+	m := map[string]map[int32]EpochOffset{}
+	for _, r := range rs {
+		if m[r.Topic] == nil {
+			m[r.Topic] = map[int32]EpochOffset{}
+		}
+		if cur, ok := m[r.Topic][r.Partition]; !ok || r.Offset+1 > cur.Offset {
+			m[r.Topic][r.Partition] = EpochOffset{Epoch: r.LeaderEpoch, Offset: r.Offset + 1}
+		}
+	}
+	c.MarkCommitOffsets(m)
+}
+
+// CommitRecords commits the offsets behind the given records at once.
+func (c *Client) CommitRecords(ctx context.Context, rs ...*Record) error {
+	c.MarkCommitRecords(rs...)
+	return c.CommitMarkedOffsets(ctx)
+}
+
+// MarkedOffsets / CommittedOffsets / UncommittedOffsets mirror the real client's introspection.
+func (c *Client) MarkedOffsets() map[string]map[int32]EpochOffset {
+	m := map[string]map[int32]EpochOffset{}
+	for _, tp := range c.b.tps() {
+		if c.hasMark[tp] {
+			if m[tp.Topic] == nil {
+				m[tp.Topic] = map[int32]EpochOffset{}
+			}
+			m[tp.Topic][tp.Partition] = c.marked[tp]
+		}
+	}
+	return m
+}
+
+func (c *Client) CommittedOffsets() map[string]map[int32]EpochOffset {
+	m := map[string]map[int32]EpochOffset{}
+	for _, tp := range c.b.tps() {
+		if p := c.b.parts[tp]; p != nil && p.hasCommit && c.assigned[tp] {
+			if m[tp.Topic] == nil {
+				m[tp.Topic] = map[int32]EpochOffset{}
+			}
+			m[tp.Topic][tp.Partition] = p.committed
+		}
+	}
+	return m
+}
+
+func (c *Client) UncommittedOffsets() map[string]map[int32]EpochOffset { return c.MarkedOffsets() }
+
+// PollFetches is PollRecords without a limit.
+func (c *Client) PollFetches(ctx context.Context) Fetches { return c.PollRecords(ctx, 0) }
+
+// LeaveGroup gives the assignment back (committing what is marked first, as autocommit does).
+func (c *Client) LeaveGroup() {
+	c.commitMarked()
+	for tp := range c.assigned {
+		delete(c.assigned, tp)
+	}
+}
+
 func (c *Client) Close() {
 	if c.closed {
 		return
